@@ -29,6 +29,20 @@ pub struct C01;
 pub fn focus_txn(g: &mut LedgerGen) -> Txn {
     let kind = g.rng.weighted(&[3, 3, 2, 1, 2, 1, 2, 0]);
     let mut t = g.txn(kind, false);
+    if g.commodities.len() >= 2 && g.rng.chance(1, 40) {
+        // two large residual commodities (15 digits each, well inside the decimal range): their
+        // sum, sign and ratio are representable, their product is not - and nothing needs it
+        let (x, y) = g.two_commodities().unwrap();
+        t.postings.clear();
+        for c in [x, y] {
+            let v = Dec::new(100_000_000_000_000 + g.rng.below(899_000_000_000_000) as i64, 0);
+            let v = if g.rng.chance(1, 2) { -v } else { v };
+            let mut p = Posting::new(&g.pick_account());
+            p.amount = Some(g.lit(v, &c));
+            t.postings.push(p);
+        }
+        return t;
+    }
     let n_pert = g.rng.weighted(&[3, 4, 2, 1]);
     for _ in 0..n_pert {
         if t.postings.is_empty() {
@@ -206,7 +220,15 @@ impl Check for C01 {
     fn execute(&self, sc: &Sc, out: &mut RunOut) {
         let (files, extents) = sc.world.render();
         let files = Rc::new(files);
-        let books = Books::process(&sc.world);
+        // the model uses rust_decimal's panicking operators: a ledger that needs a number beyond
+        // the decimal range makes the model itself overflow, and is then outside the statement
+        let books = match std::panic::catch_unwind(|| Books::process(&sc.world)) {
+            Ok(b) => b,
+            Err(_) => {
+                out.count("dc.the reference model needs a number beyond the decimal range");
+                return;
+            }
+        };
         let root = sc.world.root().to_string();
         let no_faults = Default::default();
         let mut statuses: Vec<(bool, String)> = Vec::new();
@@ -218,7 +240,12 @@ impl Check for C01 {
                 ApiRun::Ok { .. } => (true, None),
                 ApiRun::Err(e) => (false, Some(e.clone())),
                 ApiRun::Panic(pi) => {
-                    if pi.location.contains("rust_decimal") && pi.message.contains("overflowed") {
+                    // the reference model got through the same ledger with rust_decimal's own
+                    // panicking arithmetic (caught above), so every number the statement needs
+                    // is representable: an overflow inside okane is then a crash, not a number
+                    // out of range
+                    let definite = matches!(books.outcome, Outcome::Accepted | Outcome::Rejected { .. });
+                    if pi.location.contains("rust_decimal") && pi.message.contains("overflowed") && !definite {
                         // an intermediate product beyond the 28-29 digits of a decimal
                         // (DONT_CARE of section 6): reported as information, not judged
                         out.violate_keyed(
